@@ -267,11 +267,17 @@ fn gen_letters(cs: &mut ChoiceStream, known_tag: &str) -> Vec<Letter> {
     // bias: make well-formed content likely by following a Deliver with a matching header and body
     if cs.choose("coherent_prefix", 3) != 0 {
         let size = *pick(cs, "coherent_size", &[0u64, 1, 10, 37]);
-        let mut pre = vec![Letter::Deliver { ch: 1, tag: known_tag.to_string(), dtag: 50 }, Letter::Header { ch: 1, size }];
+        // mostly for the known consumer; sometimes a complete delivery for a tag nobody consumes with
+        let (pch, ptag) = match cs.choose("coherent_addressee", 5) {
+            0 => (1u16, "no-such-tag".to_string()),
+            1 => (2u16, known_tag.to_string()),
+            _ => (1u16, known_tag.to_string()),
+        };
+        let mut pre = vec![Letter::Deliver { ch: pch, tag: ptag, dtag: 50 }, Letter::Header { ch: pch, size }];
         let mut left = size as usize;
         while left > 0 {
             let k = (*pick(cs, "coherent_piece", &[1usize, 5, 10, 37])).min(left);
-            pre.push(Letter::Body { ch: 1, len: k });
+            pre.push(Letter::Body { ch: pch, len: k });
             left -= k;
         }
         let cut = cs.choose("coherent_cut", pre.len() as u32 + 1) as usize;
